@@ -1,5 +1,6 @@
 import ShootVerif.Spec.Json
 import ShootVerif.Proofs.CtorMain
+import ShootVerif.Proofs.Alloc
 /-!
 C11 — with -json, MarshalJSON emits one key per exported field and per unexported field that has
 a getter or setter (own, or promoted from an embedded shoot type), named by the explicit json tag
@@ -142,6 +143,25 @@ theorem C11_unmarshal_frame {V : Type} (zero : V) (doc : List (String × V)) (n 
       have hne' : ¬ (n = x.name) := fun e => hne e.symm
       simp [hx, setF, hne']
     · simp [hx]
+
+/-- UnmarshalJSON's assignment (or setter call) for a field promoted through embedded pointer structs
+    never dereferences nil — into a fresh value or any other — and allocates exactly the structs on the way -/
+theorem C11_unmarshal_no_panic (ptrs : List Alloc.Path) (h : Alloc.Heap) :
+    ∃ h', Alloc.writeField ptrs h = .ok h' ∧ (∀ q ∈ ptrs, q ∈ h') ∧ (∀ q, q ∈ h → q ∈ h') := by
+  obtain ⟨h', e, a, b, _⟩ := Alloc.allocAll_ok ptrs [] h (by simp)
+  refine ⟨h', ?_, by simpa using a, b⟩
+  unfold Alloc.writeField
+  rw [e]
+  have : ptrs.all (fun q => h'.contains q) = true := by
+    simp only [List.all_eq_true, List.contains_iff_mem]
+    intro q hq; simpa using a q (by simp [hq])
+  simp only [this, ↓reduceIte]
+
+/-- MarshalJSON's guarded read never dereferences nil, and the field is read iff every embedded pointer
+    struct on its way is there (otherwise the key carries the zero value) -/
+theorem C11_marshal_no_panic (ptrs : List Alloc.Path) (h : Alloc.Heap) :
+    ∃ b, Alloc.guardRead [] ptrs h = .ok b ∧ (b = true ↔ ∀ q ∈ ptrs, q ∈ h) :=
+  Alloc.guardRead_ok ptrs [] h (by simp)
 
 /-! non-vacuity: embedded struct with a shadowed field, an explicit tag, a get-only field -/
 example :
